@@ -349,10 +349,11 @@ func (update *Update) Prepend(eventlist *EventList) error {
 	if last < ours-1 {
 		return errors.New("missing events")
 	}
-	min := int(1 + last - ours)
-	if min > len(update.Events) {
+	// compare as unsigned numbers: for indices that lie far apart the difference does not fit an int
+	if 1+last-ours > uint64(len(update.Events)) {
 		return errors.New("events too new")
 	}
+	min := int(1 + last - ours)
 
 	n := &Update{
 		SignedAccumulator: update.SignedAccumulator,
